@@ -1,6 +1,6 @@
 (* C04 — approximate search is sound: only live, matching, correctly ranked results. *)
 From Coq Require Import ZArith Floats List Sorting.Sorted.
-From Syz Require Import Quant Dist Search Lsh FloatOrder ApproxProofs.
+From Syz Require Import Quant Dist Search Lsh FloatOrder ApproxProofs HeapPerm ApproxNonEmpty.
 Open Scope Z_scope.
 
 (* For EVERY forest (it need not even satisfy the index invariant), every query, K, radius, filter
@@ -20,3 +20,21 @@ Print Assumptions C04_sound.
 Theorem C04_ltb_asym : forall x y, PrimFloat.ltb x y = true -> PrimFloat.ltb y x = false.
 Proof. exact ltb_asym. Qed.
 Print Assumptions C04_ltb_asym.
+
+(* A K-nearest search (K >= 1, no radius) returns at least one result whenever some live document accepted by
+   the filter is indexed — for every forest whose leaves hold only live ids (what C05 establishes), without nil
+   children and with hyperplane distances that are not infinite, for every query and whatever order the node
+   queue (the transcription of container/heap, proved to only permute) hands the nodes out: before the first
+   acceptance nothing is pruned and the early-stop counter does not run, and the fuel 2*(nodes)+10 of the loop
+   suffices to reach the leaf that holds the document. *)
+Theorem C04_nonempty : forall cosine q K R docs forest id, (0 < K)%nat -> PrimFloat.ltb 0 R = false ->
+  Forall (tree_ok cosine q (vector_length q) docs) forest ->
+  wanted docs id -> (exists t, In t forest /\ In id (leaf_ids t)) ->
+  fst (fst (search_approx cosine q K R docs forest)) <> nil.
+Proof. exact approx_nonempty. Qed.
+Print Assumptions C04_nonempty.
+
+(* the node queue only permutes: push adds exactly the pushed node, pop removes exactly the popped one *)
+Theorem C04_queue_is_a_bag : forall (h : list qitem) x h', hpop fst (0%float, Nil) h = Some (x, h') -> Permutation.Permutation h (x :: h').
+Proof. intros h x h'. apply hpop_perm. Qed.
+Print Assumptions C04_queue_is_a_bag.
